@@ -1,14 +1,15 @@
 ID = "C09"
 LEVEL = "other"
-CONTRACT_MODULES = []
-FUNCTIONS = []
+CONTRACT_MODULES = ["contracts.optimize", "contracts.matrixutils"]
+FUNCTIONS = ["Optimize.solve", "Optimize.solve@self-calls", "Optimize.step@self-calls", "Optimize.reload@self-calls", "Optimize.reload@restore-block",
+             "MeritFunctionForMatch.__call__@within-tol-flag", "MeritFunctionForMatch.__call__@knob-block", "Optimize.set_knobs_from_x"]
 RAC = "rac/c09.py"
 RAC_BUDGET = {"quick": 60, "thorough": 900}
 DESIGN_REF = "DESIGN.md section 4, C09"
-TECHNIQUE = "run-time contracts on generated matching problems with an independent evaluator (bounded); deductive part under construction"
-TRUSTED = ["numpy / LAPACK", "floating point treated as exact up to the stated relative tolerances"]
-ASSUMPTIONS = ["user action deterministic, never returns the string 'failed'"]
-BOUNDED = ["everything (this revision)"]
-EXPLANATION = "bounded run-time contract check"
-LEVEL_TEXT = "bounded"
-LEVEL_NOTE = "bounded"
+TECHNIQUE = 'contract-based deductive verification of the solve() protocol and of the blocks that restore / evaluate (pyvc: exceptional postconditions, block contracts on the real statements; z3) + run-time contracts on generated matching problems with an independent evaluator'
+TRUSTED = ["floats are treated as reals (DESIGN 2.3(1)); every 'up to rounding' clause is run-time only", 'numpy-lite model of pyvc/num_engine.py (vectors as length + array, in-place scaling as a scalar factor, np.abs/argmin/all, zip/enumerate/range) and, for element-wise numpy code, the pointwise abstraction of pyvc/pointwise_engine.py', 'numpy / LAPACK / scipy themselves', 'z3 (NRA/LRA + quantifiers), cvc5']
+ASSUMPTIONS = ['Optimize.step / Optimize.reload are assumed by contract at the call sites inside solve() (append-only log, reload(0) restores row 0); their inner blocks are proved separately', "user function deterministic, never returns the string 'failed'", 'assert_within_tol is on (the default); with it off the first clause is void']
+BOUNDED = ['that the flag refers to the knob values left in the containers (evalpt = K across Optimize.step and JacobianSolver.step), Optimize.step as a whole and JacobianSolver.step as a whole are assumed at the call sites of solve(); checked at run time: 1200 (quick) / 8000 generated solves incl. user-action failures, limit violations, knobs enabled after row 0']
+EXPLANATION = "proved: Optimize.solve returns normally only with the within-tolerance flag of the last evaluation set (assert_within_tol), and every exceptional exit with restore_if_fail passes through reload(iteration=0) (handler covers every exception class); the flag is assigned, in both branches, to 'all active targets within tolerance'; reload's loop writes the raw logged value and flag of every knob; knob writers touch active knobs only"
+LEVEL_TEXT = "Mixed: the functions and blocks listed under `functions` are proved (every obligation discharged from the real source on every run); the clauses listed under `bounded` are run-time contract checks on generated problems. Never claimed as proof."
+LEVEL_NOTE = "See TRUSTED / BOUNDED / ASSUMPTIONS in the evidence file."
